@@ -80,6 +80,10 @@ fn user_rows(d: usize, p: PosPattern) -> Vec<Row> {
         // U7: a homograph of the system word 東 (same part of speech) that is read like its key: the inline
         // reference `東,...,ヒガシ` of U3 still means the system word
         Row::new("東", 1, 1, 9000, P_NOUN).reading("東"),
+        // U8: written differently from its key, same key / part of speech / reading as the system word 京
+        Row::new("京", 1, 1, 9000, P_NOUN).headword("亰").reading("キョウ"),
+        // U9: its inline reference to 京 means the word of its own dictionary (own entries come first)
+        with_pos(Row::new(&format!("{}京京", a), 1, 1, -500, P_NOUN).splits("C", "U0/京,名詞,普通名詞,一般,*,*,*,キョウ", "*")),
     ]
 }
 
@@ -204,7 +208,7 @@ fn check_layers_route(env: &Env, l: &Layers, o: &mut Outcome, from_files: bool) 
                         if pos != row.pos.to_vec() {
                             f.push(Failure::new("part-of-speech-differs", format!("{}: word ({}, {}) {:?} reports part of speech {:?}, its source declares {:?}", ctx, d, i, row.surface, pos, row.pos)));
                         }
-                        if fields[0] != row.surface || fields[1] != row.reading {
+                        if fields[0] != row.headword || fields[1] != row.reading {
                             f.push(Failure::new("user-word-fields", format!("{}: word ({}, {}) reports {:?}", ctx, d, i, fields)));
                         }
                         // references
@@ -213,9 +217,10 @@ fn check_layers_route(env: &Env, l: &Layers, o: &mut Outcome, from_files: bool) 
                             2 => vec![u(0), u(1)],
                             3 => vec![u(0), WordId::new(0, 0)],
                             6 => vec![u(0)],
+                            9 => vec![u(0), u(8)],
                             _ => vec![],
                         };
-                        let exp_b = if i == 5 { vec![u(0), WordId::new(0, 1)] } else { exp_a.clone() };
+                        let exp_b = if i == 5 { vec![u(0), WordId::new(0, 1)] } else if i == 9 { vec![] } else { exp_a.clone() };
                         let exp_ws: Vec<WordId> = match i {
                             2 | 6 => exp_a.clone(),
                             _ => vec![],
